@@ -449,6 +449,7 @@ func stressOp(toks []string) string {
 // the Lean protocol model must accept every one of them.
 
 type tracer struct {
+	full     int32
 	mu       sync.Mutex
 	lines    []string
 	txIDs    map[any]int
@@ -495,10 +496,21 @@ func mode(w bool) string {
 	return "r"
 }
 
+// maxTraceEvents bounds the recorded trace (a prefix of a run of the protocol is a run of the
+// protocol, so a truncated trace is still validated soundly)
+const maxTraceEvents = 1500000
+
 func (tr *tracer) hook(ev string, who any, key string, m any, flag bool) {
 	atomic.AddUint64(&progress, 1)
+	if atomic.LoadInt32(&tr.full) != 0 {
+		return
+	}
 	tr.mu.Lock()
 	defer tr.mu.Unlock()
+	if len(tr.lines) >= maxTraceEvents {
+		atomic.StoreInt32(&tr.full, 1)
+		return
+	}
 	if ev == "clear" {
 		tr.emit("clear")
 		return
@@ -1430,3 +1442,110 @@ func truncate(b []byte, n int) []byte {
 }
 
 func init() { scenarios["hostile"] = scHostile }
+
+// ---- scans under concurrency (C19) -------------------------------------------------------------
+// A full cursor iteration returns every key / member that exists during the whole iteration, also
+// while other clients keep reading and writing those very keys (and while eviction and flush run).
+
+func scScanConcurrent(n *nodis.Nodis, r *rand.Rand, rounds int) string {
+	const keys = 24
+	for i := 0; i < keys; i++ {
+		n.Set(fmt.Sprintf("sc:%02d", i), []byte("0"), false)
+	}
+	for i := 0; i < 300; i++ {
+		n.SAdd("sc:set", fmt.Sprintf("m%03d", i))
+		n.HSet("sc:hash", fmt.Sprintf("f%03d", i), []byte("v"))
+		n.ZAdd("sc:z", fmt.Sprintf("z%03d", i), float64(i))
+	}
+	stop := make(chan struct{})
+	var wg sync.WaitGroup
+	for w := 0; w < 6; w++ {
+		wg.Add(1)
+		go func(w int) {
+			defer wg.Done()
+			rr := rand.New(rand.NewSource(int64(w)))
+			for {
+				select {
+				case <-stop:
+					return
+				default:
+				}
+				k := fmt.Sprintf("sc:%02d", rr.Intn(keys))
+				time.Sleep(time.Duration(50+rr.Intn(150)) * time.Microsecond) // clients, not spinning loops
+				switch rr.Intn(8) {
+				case 0:
+					n.Get(k)
+				case 1:
+					n.SMembers("sc:set")
+				case 2:
+					n.SAdd("sc:set", "m000")
+				case 3:
+					n.HSet("sc:hash", "f000", []byte("w"))
+				case 4:
+					if w == 0 {
+						n.VerifGC()
+					}
+				case 5:
+					n.ZAdd("sc:z", "z000", 0)
+				default:
+					n.Incr(k)
+				}
+			}
+		}(w)
+	}
+	fail := ""
+	for round := 0; round < rounds && fail == ""; round++ {
+		seen := map[string]bool{}
+		var cursor int64
+		for calls := 0; ; calls++ {
+			c, ks := n.Scan(cursor, "*", int64(1+round%7), 0)
+			for _, k := range ks {
+				seen[k] = true
+			}
+			cursor = c
+			if cursor == 0 {
+				break
+			}
+			if calls > 10000 {
+				fail = "FAIL a SCAN iteration over 27 keys did not finish in 10000 calls"
+				break
+			}
+		}
+		for i := 0; i < keys && fail == ""; i++ {
+			if k := fmt.Sprintf("sc:%02d", i); !seen[k] {
+				fail = fmt.Sprintf("FAIL a full SCAN iteration (COUNT %d) missed key %s, which existed during the whole iteration while other clients were using it (round %d)", 1+round%7, k, round)
+			}
+		}
+		for _, k := range []string{"sc:set", "sc:hash", "sc:z"} {
+			if fail == "" && !seen[k] {
+				fail = fmt.Sprintf("FAIL a full SCAN iteration missed key %s (round %d)", k, round)
+			}
+		}
+		// member-level scans
+		ms := map[string]bool{}
+		cursor = 0
+		for {
+			c, got := n.SScan("sc:set", cursor, "*", 7)
+			for _, m := range got {
+				ms[m] = true
+			}
+			// through the embedded API the cursor is a position; the SSCAN handler turns a position at
+			// or beyond the cardinality into 0
+			if cursor = c; cursor == 0 || cursor >= n.SCard("sc:set") {
+				break
+			}
+		}
+		if fail == "" && len(ms) < 300 {
+			fail = fmt.Sprintf("FAIL a full SSCAN iteration returned %d of 300 members that existed during the whole iteration (round %d)", len(ms), round)
+		}
+		atomic.AddUint64(&progress, 1)
+	}
+	close(stop)
+	wg.Wait()
+	if fail != "" {
+		return fail
+	}
+	return fmt.Sprintf("ok rounds=%d", rounds)
+}
+
+func init() { scenarios["scan-concurrent"] = scScanConcurrent }
